@@ -111,6 +111,7 @@ type contentStore struct {
 	open                 storeOpenHandle
 	close                storeCloseHandle
 	lock                 sync.RWMutex
+	saveLock             sync.Mutex
 	jsonldDocumentLoader ld.DocumentLoader
 }
 
@@ -246,6 +247,10 @@ func (cs *contentStore) Save(auth string, ct ContentType, content []byte, option
 
 // safeSave saves given content to store by given key but returns error if content with given key already exists.
 func (cs *contentStore) safeSave(auth, key string, content []byte, tags ...storage.Tag) error {
+	// "does it exist? then store" is one step: two saves of the same content id must not both succeed.
+	cs.saveLock.Lock()
+	defer cs.saveLock.Unlock()
+
 	cs.lock.RLock()
 	defer cs.lock.RUnlock()
 
